@@ -23,8 +23,10 @@ RULE = (
 )
 ASSUMPTIONS = [
     "legacy semantics as in docs/source/spec.rst and DESIGN 8.1: callable-headed tuples are calls, lists and the dict idiom "
-    "are evaluated elementwise, hashable values equal to a key are references; non-call tuples holding references are "
-    "generated only as explicit Tuple containers",
+    "are evaluated elementwise, hashable values equal to a key are references; in the RICH generator non-call tuples holding "
+    "references appear only as explicit Tuple containers; legacy plain tuples with references are covered by the plain-tuples "
+    "sub-check with oracles that do not depend on the grey zone (no graph-node object in a value, position independence) plus "
+    "the converter's own elementwise rule",
 ]
 TECHNIQUE = "differential testing against an independent reference evaluator; round-trip (pickle) checks; Hypothesis-generated nested graph specs + exhaustive small DAGs"
 
